@@ -6,7 +6,7 @@
 // only executes and records what happened at the system boundary.
 //
 // case: {"id":n, "argv":[...], "stdin":"hex", "cycle":"hex"?, "cap":n?, "intr":[call idx...]?,
-//        "rfail":off?, "rkind":"Other"|"UnexpectedEof"|"BrokenPipe"|"ConnectionReset"|"TimedOut"|"InvalidData"|"WouldBlock"|"NotFound"|"PermissionDenied"? (kind of the injected read error), "wfail":off?, "efail":off?, "wmax":n?, "log":bool?, "timeout_ms":n?,
+//        "rfail":off?, "rkind":"Other"|"UnexpectedEof"|"BrokenPipe"|"ConnectionReset"|"TimedOut"|"InvalidData"|"WouldBlock"|"NotFound"|"PermissionDenied"? (kind of the injected read error), "wfail":off?, "wkind":kind?, "efail":off?, "wmax":n?, "log":bool?, "timeout_ms":n?,
 //        "files":["hex",...]?   (written to temporary files; "@FILE<i>" in argv is replaced by the path, "@DIR" by the directory)
 //        "fifo":{"prefix":"hex","cycle":"hex","cap":n}?  (a named pipe fed by a thread; "@FIFO" in argv is replaced by its path;
 //                                                        obs.pulled = bytes the feeder handed over, obs.capped = cap reached)}
@@ -144,6 +144,7 @@ struct OutWriter {
     is_err: bool,
     fail_at: Option<usize>,
     wmax: usize,
+    kind: io::ErrorKind,
     log: bool,
     sh: Sh,
 }
@@ -162,7 +163,7 @@ impl Write for OutWriter {
                     if self.log {
                         sh.ev.push(json!(if self.is_err { "ef" } else { "wf" }));
                     }
-                    return Err(io::Error::new(io::ErrorKind::Other, "injected write fault"));
+                    return Err(io::Error::new(self.kind, "injected write fault"));
                 }
             }
         }
@@ -317,7 +318,7 @@ fn run_case(case: &Value) -> Value {
         .map(|a| a.iter().filter_map(|x| x.as_u64().map(|u| u as usize)).collect())
         .unwrap_or_default();
     let rfail = case["rfail"].as_u64().map(|u| u as usize);
-    let rkind = match case["rkind"].as_str().unwrap_or("Other") {
+    let kind_of = |name: &str| match name {
         "UnexpectedEof" => io::ErrorKind::UnexpectedEof,
         "BrokenPipe" => io::ErrorKind::BrokenPipe,
         "ConnectionReset" => io::ErrorKind::ConnectionReset,
@@ -326,8 +327,13 @@ fn run_case(case: &Value) -> Value {
         "WouldBlock" => io::ErrorKind::WouldBlock,
         "NotFound" => io::ErrorKind::NotFound,
         "PermissionDenied" => io::ErrorKind::PermissionDenied,
+        "WriteZero" => io::ErrorKind::WriteZero,
+        "ConnectionAborted" => io::ErrorKind::ConnectionAborted,
         _ => io::ErrorKind::Other,
     };
+    let rkind = kind_of(case["rkind"].as_str().unwrap_or("Other"));
+    // "wkind": the kind of the injected write error (a reader that went away is BrokenPipe, a full device Other, ...)
+    let wkind = kind_of(case["wkind"].as_str().unwrap_or("Other"));
     let chunks: Vec<usize> = case["chunks"]
         .as_array()
         .map(|a| a.iter().filter_map(|x| x.as_u64().map(|u| u as usize)).collect())
@@ -342,6 +348,7 @@ fn run_case(case: &Value) -> Value {
         is_err: false,
         fail_at: wfail,
         wmax,
+        kind: wkind,
         log,
         sh: sh.clone(),
     }));
@@ -349,6 +356,7 @@ fn run_case(case: &Value) -> Value {
         is_err: true,
         fail_at: efail,
         wmax,
+        kind: wkind,
         log,
         sh: sh.clone(),
     }));
